@@ -70,11 +70,11 @@ class Phy(Sandbox):
     def bt_sub_version(self): return 0x100
 Phy.add(LinkLayer)
 
-def mk_phy():
+def mk_phy(handle=42):
     p = Phy()
     ll = p.get_layer('ll')
-    ll.on_connect(42, BDAddress('11:22:33:44:55:66'), BDAddress('66:55:44:33:22:11'))
-    l2 = ll.get_layer(ll.state.get_connection_l2cap(42))
+    ll.on_connect(handle, BDAddress('11:22:33:44:55:66'), BDAddress('66:55:44:33:22:11'))
+    l2 = ll.get_layer(ll.state.get_connection_l2cap(handle))
     l2.register_monitor_callback(p.log_message)
     return p, l2
 
@@ -126,11 +126,11 @@ def do_send_after(ops, cid, sdu):
     frags = [[bool(m.args.get('fragment', False)), bytes(m.data).hex()] for m in ll.messages if m.destination == 'll']
     return {"frags": frags, "local_mtu": int(ll.l2.get_local_mtu())}
 
-def do_e2e(mtu, cid, sdus):
+def do_e2e(mtu, cid, sdus, handle=42):
     """two real LinkLayer+L2CAP stacks; the data PDU OBJECTS emitted towards phy by the
     first are handed, as produced, to the second."""
-    pa, la = mk_phy()
-    pb, lb = mk_phy()
+    pa, la = mk_phy(handle)
+    pb, lb = mk_phy(handle)
     la.set_remote_mtu(mtu)
     out, sizes = [], []
     try:
@@ -143,7 +143,7 @@ def do_e2e(mtu, cid, sdus):
             for m in list(pa.messages):
                 if m.destination == 'phy' and m.tag == 'data':
                     sizes.append(len(bytes(m.data.payload)))
-                    pb.send('ll', m.data, tag='data', conn_handle=42)
+                    pb.send('ll', m.data, tag='data', conn_handle=handle)
     except Exception as e:  # noqa
         return {"exc": type(e).__name__}
     for m in pb.messages:
@@ -158,7 +158,7 @@ def main():
            "send_ll": [do_send_ll(m, c, bytes.fromhex(h)) for m, c, h in req.get("send_ll", [])],
            "recv_ll": [do_recv_ll(f) for f in req.get("recv_ll", [])],
            "send_after": [do_send_after(o, c, bytes.fromhex(h)) for o, c, h in req.get("send_after", [])],
-           "e2e": [do_e2e(m, c, [bytes.fromhex(h) for h in hs]) for m, c, hs in req.get("e2e", [])]}
+           "e2e": [do_e2e(e[0], e[1], [bytes.fromhex(h) for h in e[2]], *(e[3:4])) for e in req.get("e2e", [])]}
     print("RESULT " + json.dumps(res))
 
 main()
